@@ -2,11 +2,14 @@ package c20
 
 import (
 	"bytes"
+	"fmt"
 	"os"
 	"path/filepath"
 	"testing"
 
 	"github.com/specterops/dawgs/retriever"
+
+	"verif/evid"
 )
 
 // FuzzC20 is a native coverage-guided target over the three archive readers. It is not run by
@@ -44,49 +47,66 @@ func FuzzC20(f *testing.F) {
 		if len(data) > 1<<20 {
 			t.Skip()
 		}
-		sb, err := newSandbox()
-		if err != nil {
-			t.Skip("harness: " + err.Error())
-		}
-		defer sb.close()
-		sealed, err := sealTo(keys().pub, data)
-		if err != nil {
-			t.Skip("harness: " + err.Error())
-		}
-		archivePath := filepath.Join(sb.root, "archive.tar.pq")
-		if err := os.WriteFile(archivePath, sealed, 0o600); err != nil {
-			t.Skip("harness: " + err.Error())
-		}
-		sb.seal()
-		fx := getFixture(0)
-		var v verdicts
-		// plain tar: safety only (no model of arbitrary bytes)
-		if err := runTar(fx, sb, data, "absent", tarExpect{}, &v); err != nil {
-			t.Fatalf("tar: %v", err)
-		}
-		// the bytes as an encrypted archive: succeeds only if the tree is fixture 0's dump — which a
-		// fuzzer cannot forge without the sender context — so lenient is the right expectation
-		if err := os.WriteFile(archivePath, data, 0o600); err != nil {
-			t.Skip("harness: " + err.Error())
-		}
-		sb.seal()
-		if err := runEncSafety(sb, archivePath, data, &v); err != nil {
-			t.Fatalf("archive bytes: %v", err)
-		}
-		if err := os.WriteFile(archivePath, sealed, 0o600); err != nil {
-			t.Skip("harness: " + err.Error())
-		}
-		sb.seal()
-		if err := runEncSafety(sb, archivePath, sealed, &v); err != nil {
-			t.Fatalf("sealed tar payload: %v", err)
+		if _, err := fuzzOracle(fuzzCase{Data: data}); err != nil {
+			evid.FuzzFail(t, "fuzz", fuzzCase{Data: data}, err)
 		}
 	})
 }
 
-// runEncSafety: the archive consumers on arbitrary input — whatever they return, the sandbox
-// outside the destination stays untouched; on error the staged entry point leaves no
-// destination, Load writes nothing; on success the unpacked tree must be a collection that
-// validates (manifest readable, digests match).
+type fuzzCase struct {
+	Data []byte `json:"data"`
+}
+
+// TestC20FuzzReplay registers the fuzz check's oracle for --replay of cases recorded from fuzz crashers.
+func TestC20FuzzReplay(t *testing.T) { evid.Register(t, "fuzz", fuzzOracle) }
+
+func fuzzOracle(c fuzzCase) (evid.Info, error) {
+	data := c.Data
+	info := evid.Info{}
+	sb, err := newSandbox()
+	if err != nil {
+		info.Skip = "harness: " + err.Error()
+		return info, nil
+	}
+	defer sb.close()
+	sealed, err := sealTo(keys().pub, data)
+	if err != nil {
+		info.Skip = "harness: " + err.Error()
+		return info, nil
+	}
+	archivePath := filepath.Join(sb.root, "archive.tar.pq")
+	if err := os.WriteFile(archivePath, sealed, 0o600); err != nil {
+		info.Skip = "harness: " + err.Error()
+		return info, nil
+	}
+	sb.seal()
+	fx := getFixture(0)
+	var v verdicts
+	// plain tar: safety only (no model of arbitrary bytes)
+	if err := runTar(fx, sb, data, "absent", tarExpect{}, &v); err != nil {
+		return info, fmt.Errorf("tar: %w", err)
+	}
+	// the bytes as an encrypted archive: succeeds only if the tree is fixture 0's dump - which a
+	// fuzzer cannot forge without the sender context - so lenient is the right expectation
+	if err := os.WriteFile(archivePath, data, 0o600); err != nil {
+		info.Skip = "harness: " + err.Error()
+		return info, nil
+	}
+	sb.seal()
+	if err := runEncSafety(sb, archivePath, data, &v); err != nil {
+		return info, fmt.Errorf("archive bytes: %w", err)
+	}
+	if err := os.WriteFile(archivePath, sealed, 0o600); err != nil {
+		info.Skip = "harness: " + err.Error()
+		return info, nil
+	}
+	sb.seal()
+	if err := runEncSafety(sb, archivePath, sealed, &v); err != nil {
+		return info, fmt.Errorf("sealed tar payload: %w", err)
+	}
+	return info, nil
+}
+
 func runEncSafety(sb *sandbox, archivePath string, data []byte, v *verdicts) error {
 	if err := sb.prepareOut("absent"); err != nil {
 		return err
